@@ -1,3 +1,4 @@
+import Mqtt5V.Proofs.TraceInOrder
 import Mqtt5V.Model.Session
 /-! # C13 — losing the session is reported once through async_receive (flag machine)
 
@@ -77,5 +78,24 @@ theorem reports_match_spec (is : List In) : reports is = specReports true false 
 /-- non-vacuity: subscribe, resume, lose, lose again without subscribing: one report -/
 example : (run {} [.connack false, .update, .update, .subOk, .connack true, .update, .connack false, .update, .update,
     .connack false, .update]).2 = [false, false, false, false, false, false, false, true, false, false, false] := by decide
+
+/-! ## the composed client model, inbound side (`Model/TraceIn.lean`; tie: every H-client transcript of the real client must be accepted) -/
+section ComposedModel
+open Mqtt5V.Model
+
+/-- **C13 end to end, every accepted history**: after every prefix the application has been handed at most as many `session_expired` reports as
+are due — `TraceIn.expiryDue`, computed from the events alone: one for every reconnect with Session Present = 0 that follows a successful
+subscription not yet reported; none for a resumed session, none without a subscription since the last report. (That a due report is
+delivered, and ahead of the messages of the new session, is the monitor's part: the report is stored into the first-in-first-out channel at
+the reconnect, before anything of the new connection is read.) -/
+theorem composed_expired_reports_bounded (tr pre post : List TraceIn.Ev) (hacc : TraceIn.accepts tr = true) (hsplit : tr = pre ++ post) :
+    TraceIn.cnt TraceIn.isDeliverExp pre ≤ TraceIn.expiryDue pre :=
+  Mqtt5V.Proofs.TraceIn.expired_reports_bounded hacc pre post hsplit
+
+example : TraceIn.accepts [.connUp false, .subOk, .connUp true, .connUp false, .deliver 9 0 0, .connUp false] = true := by decide
+example : TraceIn.accepts [.connUp false, .subOk, .connUp false, .deliver 9 0 0, .connUp false, .deliver 9 0 0] = false := by decide
+example : TraceIn.accepts [.connUp false, .subOk, .connUp true, .deliver 9 0 0] = false := by decide
+
+end ComposedModel
 
 end Mqtt5V.Props.C13
